@@ -8,6 +8,7 @@ pub mod c08;
 pub mod c10;
 pub mod c11;
 pub mod c12;
+pub mod c16;
 pub mod daemon;
 pub mod client;
 pub mod hostile;
@@ -115,6 +116,7 @@ pub fn all() -> Vec<PropDef> {
     v.push(c10::def());
     v.push(c11::def());
     v.push(c12::def());
+    v.push(c16::def());
     v.push(fe::def_c02());
     v.push(fe::def_c03());
     v.push(breq::def_c18());
